@@ -109,7 +109,9 @@ def handleTrace (i o : Json) : Except String Verdict := do
           | [ax, ay, cx, cy] => let d := dist2 x y ax ay cx cy; if d < m then d else m
           | _ => m) (1000000000 : Rat)
         if !decide (best ≤ traceTol * traceTol) then
-          return .specfalse s!"trace-off-outline:{typ}" s!"box {box} approach {a}: traced ({x},{y}) from border point ({rx},{ry}), squared distance to the outline {best}"
+          -- the function fell back to the (rounded) point on the box: its extended segment met no outline element
+          let sig := if x == roundR rx && y == roundR ry then "trace-no-intersection" else "trace-off-outline"
+          return .specfalse s!"{sig}:{typ}" s!"box {box} approach {a}: traced ({x},{y}) from border point ({rx},{ry}), squared distance to the outline {best}"
     | _ => throw "bad trace result"
   return .ok
 
